@@ -22,7 +22,7 @@ LEVEL_TEXT = 'Fault enumeration: every assignment of {none} + 14 documented faul
 TECHNIQUE = 'fault enumeration over row-fault assignments + batch-vs-single-row history checker on the real Excel workflow'
 RULE = ('sample tables of 1..5 rows over generated FCS files x every assignment of {none, missing file, <400 events, '
         'fraction<0, fraction>1, unknown units, calibration failed / absent / no curve for channel, beads of another '
-        'instrument / amplifier type / detector voltage} (exhaustive for <=2 rows quick, <=3 rows thorough) + random 4-5 row '
+        'instrument / amplifier type / detector voltage} (exhaustive for <=2 rows quick, <=3 rows thorough; fractions also outside [0,1] by only 1e-9) + random 4-5 row '
         'tables + permutations; bead tables with {missing file, <400 events, fraction out of range, unequal MEF lists}; '
         'empty tables; non-trivial = table with >= 1 faulty row; distinct = (row specs, fault assignment)')
 ASSUMPTIONS = ['healthy rows compared with their single-row runs sharing the same calibration objects',
@@ -32,7 +32,7 @@ EXHAUSTIVE = {'quick': True, 'thorough': True}
 REQUIRED_COUNTERS = ['chk:isolation', 'chk:error-row', 'chk:no-escape', 'chk:beads-table']
 TIMEOUT_S = {'quick': 2400, 'thorough': 14000}
 
-FAULTS = ['missing-file', 'few-events', 'fraction-neg', 'fraction-big', 'bad-units', 'calib-failed', 'calib-nomef',
+FAULTS = ['missing-file', 'few-events', 'fraction-neg', 'fraction-big', 'fraction-neg-tiny', 'fraction-big-tiny', 'bad-units', 'calib-failed', 'calib-nomef',
           'calib-nochannel', 'other-instrument', 'other-amp', 'other-voltage',
           # the same mismatches seen from the sample's side: the row shares the *healthy* rows' beads (Bgood) but its own
           # file / instrument differs, so any per-beads memo of a passed check would wrongly let it through
@@ -95,6 +95,10 @@ def apply_fault(h, kind):
         r['gf'] = -0.1
     elif kind == 'fraction-big':
         r['gf'] = 1.5
+    elif kind == 'fraction-neg-tiny':
+        r['gf'] = -1e-9          # outside [0,1] by less than one event's worth
+    elif kind == 'fraction-big-tiny':
+        r['gf'] = 1.0 + 1e-9
     elif kind == 'bad-units':
         r['u2'] = 'furlongs'
     elif kind.startswith('sample-other-'):
